@@ -10,7 +10,7 @@ Lemma vm_ops_guarded_proof : forallb entry_safe vm_table = true.
 Proof. vm_compute. reflexivity. Qed.
 
 (** the table is the quantifier: it must not silently shrink *)
-Lemma vm_table_size_proof : (17 <= length vm_table)%nat.
+Lemma vm_table_size_proof : (24 <= length vm_table)%nat.
 Proof. vm_compute. lia. Qed.
 
 Lemma vm_ops_accesses_safe_proof : forall e, In e vm_table -> forall st, trace_ok st (snd e).
